@@ -208,6 +208,30 @@ class Engine:
                 results.append(Path('budget', None, list(self.pc), self.events, list(self.decisions), msg=str(b), where=self.where(), notes=self.notes))
         return results
 
+    def sub_explore(self, fn):
+        """explore all paths of a read-only computation nested inside the current path (its branch decisions do not
+        enter the outer decision vector); returns the list of results.  A Panic inside propagates."""
+        saved = (self.decisions, self.pos, self.pending)
+        base = len(self.pc); depth = self.depth; stack = list(self.call_stack)
+        results = []
+        self.pending = [[]]
+        try:
+            while self.pending:
+                self.decisions = self.pending.pop(); self.pos = 0
+                self.solver.push()
+                try:
+                    results.append(fn())
+                except Infeasible:
+                    pass
+                finally:
+                    self.solver.pop()
+                    del self.pc[base:]
+                    self.depth = depth; self.call_stack[:] = stack
+                self.stats['subpaths'] += 1
+        finally:
+            self.decisions, self.pos, self.pending = saved
+        return results
+
     def where(self):
         return ' <- '.join(reversed([n.split('>::')[-1] if '<impl at' in n else n for n in self.call_stack[-7:]]))
 
